@@ -308,6 +308,16 @@ void judge(const sim::Json& sc, const RunRecord& rec, sim::RunResult& r) {
         double want = d0.count((int)i) ? d0[(int)i] : 0.0;
         if (g[(size_t)im.idx] != want) flag("WRONG_DUAL_START", im.kind == 1 ? "direct" : "slack", "dual start " + gen::fmt_double(want) + " of constraint " + std::to_string(i) + " arrived as " + gen::fmt_double(g[(size_t)im.idx]));
       }
+    // a row that is the image of no (linear) original constraint may carry the value of an original it derives from -
+    // a nonlinear or multi-row one, which has no matched image - but never the value given for a constraint
+    // that reached the solver as its own row
+    if (find_field(*c, "g3", g)) {
+      std::set<int> image_rows; std::set<double> unmatched_vals;
+      for (long i = 0; i < m; ++i) { const Image& im = img[(size_t)i]; if (im.kind && im.group == CG_LIN) image_rows.insert(im.idx); else if (d0.count((int)i)) unmatched_vals.insert(d0[(int)i]); }
+      for (size_t rix = 0; rix < g.size(); ++rix)
+        if (g[rix] != 0 && !image_rows.count((int)rix) && !unmatched_vals.count(g[rix]))
+          flag("FOREIGN_DUAL_START", "aux-row", "delivered row " + std::to_string(rix) + " is the image of no original linear constraint but received the dual start " + gen::fmt_double(g[rix]) + " given for another constraint's own row");
+    }
   }
   if (const std::string* c = find_call(rec, "SetBasis")) {
     std::vector<double> v, g;
@@ -335,6 +345,25 @@ void judge(const sim::Json& sc, const RunRecord& rec, sim::RunResult& r) {
   {
     std::vector<std::string> xr;
     for (auto& c : rec.stub.calls) if (c.compare(0, 5, "XFER ") == 0) xr.push_back(c);
+    // every postsolved vector has one entry per original item: n variables, and one per algebraic + logical constraint
+    long nlc = sc["expect"]["nlcons"].as_int();
+    for (auto& x : xr) {
+      if (x.compare(0, 9, "XFER Post") != 0 || x.find("EXC ") != std::string::npos) continue;
+      for (const char* fld : {" c=[", " y=["}) {
+        size_t p = x.find(fld);
+        if (p == std::string::npos) continue;
+        auto v = parse_vec(x, p + 3);
+        if (!v.empty() && (long)v.size() != m + nlc)
+          flag("POSTSOLVED_CON_COUNT", x.substr(5, x.find(' ', 5) - 5), "postsolved constraint vector has " + std::to_string(v.size()) + " entries for " + std::to_string(m) + " algebraic + " + std::to_string(nlc) + " logical original constraints");
+      }
+      for (const char* fld : {" v=[", " x=["}) {
+        size_t p = x.find(fld);
+        if (p == std::string::npos) continue;
+        auto v = parse_vec(x, p + 3);
+        if (!v.empty() && (long)v.size() != n)
+          flag("POSTSOLVED_VAR_COUNT", x.substr(5, x.find(' ', 5) - 5), "postsolved variable vector has " + std::to_string(v.size()) + " entries for " + std::to_string(n) + " original variables");
+      }
+    }
     size_t nx = sc["script"]["transfers"].size();
     if (xr.size() == nx && nx >= 2) {
       size_t rep = (size_t)sc["repeat_of_last"].as_int();
